@@ -51,6 +51,9 @@ def cells(tier):
     out.append(mcell(PID, 'frame', ['metaB'], T=T, n_meta=1))
     out.append(mcell(PID, 'frame', ['metaB', 'roEdStart'], T=T, meta_split=True))
     out.append(mcell(PID, 'frame', ['metaX', 'fresh'], T=T, N=3, gap=1))
+    # a carried block without a mosSchema (or with a blank one) matches no block that names a schema
+    for carry in (['metaNone'], ['metaBlank'], ['metaNone', 'metaA'], ['roEdStart', 'metaBlank']):
+        out.append(mcell(PID, 'frame', carry, T=T))
     # nested blocks (inside stories and items) with the same mosSchema as a carried block are not addressed
     for carry, ss, extra in ((['metaA'], 'A', {}), (['metaX'], 'X', {}), (['metaX', 'roEdStart'], 'X', {'n_meta': 0}),
                              (['metaA', 'metaB'], 'A', {'meta_split': True}), (['metaA'], 'A', {'meta_pos': 2})):
